@@ -374,6 +374,9 @@ pub enum Ev {
     IntA(Chan),
     IntB(Chan),
     TickA,
+    /// the most recently queued message towards A overtakes the older ones when it is a block
+    /// announcement (announcements travelling by different routes); otherwise the head
+    ToANewest,
 }
 
 pub struct Net {
@@ -508,6 +511,12 @@ pub fn apply(net: &mut Net, ev: Ev, block_of: &BTreeMap<Hash, Vec<u8>>, rep: &mu
             let Some(m) = net.to_a.pop_front() else { return false };
             net.a.net(NetworkEvent::IncomingNetworkMessage { peer_index: B_AT_A, buffer: m })
         }
+        Ev::ToANewest => {
+            let is_header = net.to_a.back().map(|m| matches!(Message::deserialize(m.clone()), Ok(Message::BlockHeaderHash(_, _)))).unwrap_or(false);
+            let m = if is_header { net.to_a.pop_back() } else { net.to_a.pop_front() };
+            let Some(m) = m else { return false };
+            net.a.net(NetworkEvent::IncomingNetworkMessage { peer_index: B_AT_A, buffer: m })
+        }
         Ev::ToB => {
             let Some(m) = net.to_b.pop_front() else { return false };
             net.b.net(NetworkEvent::IncomingNetworkMessage { peer_index: A_AT_B, buffer: m })
@@ -623,7 +632,14 @@ fn run_fifo(f: &Forest, ca: (usize, usize), cb: (usize, usize), block_of: &BTree
 /// `newest_first`: messages and internal steps run first (every announced block gets requested),
 /// fetches complete only when nothing else can happen, the most recently requested one first
 fn run_sched(f: &Forest, ca: (usize, usize), cb: (usize, usize), block_of: &BTreeMap<Hash, Vec<u8>>, rep: &mut Report, newest_first: bool) {
-    let case = json!({"a": {"fork_after": ca.0, "branch_len": ca.1}, "b": {"fork_after": cb.0, "branch_len": cb.1}, "fetches_complete": if newest_first { "newest first" } else { "in request order" }});
+    run_sched_mode(f, ca, cb, block_of, rep, if newest_first { 1 } else { 0 })
+}
+
+/// mode 0: first enabled event; 1: fetches complete last and newest first; 2: announcements reach A
+/// newest first, every outstanding fetch is served before the next announcement is delivered
+fn run_sched_mode(f: &Forest, ca: (usize, usize), cb: (usize, usize), block_of: &BTreeMap<Hash, Vec<u8>>, rep: &mut Report, mode: u8) {
+    let newest_first = mode == 1;
+    let case = json!({"a": {"fork_after": ca.0, "branch_len": ca.1}, "b": {"fork_after": cb.0, "branch_len": cb.1}, "fetches_complete": if newest_first { "newest first" } else { "in request order" }, "announcements": if mode == 2 { "newest first, fetches served in between" } else if mode == 3 { "newest first, alternating with single fetch completions" } else { "in order" }});
     let mut net = match start(f, ca, cb, block_of) {
         Ok(n) => n,
         Err(e) => {
@@ -634,7 +650,16 @@ fn run_sched(f: &Forest, ca: (usize, usize), cb: (usize, usize), block_of: &BTre
     let mut hist = vec![];
     for _ in 0..20_000 {
         let en = enabled(&net, 6);
-        let pick = if newest_first { en.iter().find(|e| !matches!(e, Ev::FetchA(_) | Ev::TickA)).or_else(|| en.iter().rev().find(|e| matches!(e, Ev::FetchA(_)))).or_else(|| en.first()).cloned() } else { en.first().cloned() };
+        let pick = if mode == 3 {
+            // strict alternation: one announcement (newest first), one fetch completion, ...
+            let last_was_fetch = matches!(hist.iter().rev().find(|e| matches!(e, Ev::FetchA(_) | Ev::ToANewest)), Some(Ev::FetchA(_)) | None);
+            let internal = en.iter().find(|e| matches!(e, Ev::IntA(_) | Ev::IntB(_) | Ev::ToB)).cloned();
+            let fetch = en.iter().find(|e| matches!(e, Ev::FetchA(_))).cloned();
+            let ann = if net.to_a.is_empty() { None } else { Some(Ev::ToANewest) };
+            internal.or_else(|| if last_was_fetch { ann.or(fetch) } else { fetch.or(ann) }).or_else(|| en.first().cloned())
+        } else if mode == 2 {
+            en.iter().find(|e| matches!(e, Ev::IntA(_) | Ev::IntB(_) | Ev::ToB)).cloned().or_else(|| en.iter().find(|e| matches!(e, Ev::FetchA(_))).cloned()).or_else(|| if net.to_a.is_empty() { None } else { Some(Ev::ToANewest) }).or_else(|| en.first().cloned())
+        } else if newest_first { en.iter().find(|e| !matches!(e, Ev::FetchA(_) | Ev::TickA)).or_else(|| en.iter().rev().find(|e| matches!(e, Ev::FetchA(_)))).or_else(|| en.first()).cloned() } else { en.first().cloned() };
         let Some(ev) = pick else { break };
         hist.push(ev);
         rep.transitions += 1;
@@ -645,7 +670,7 @@ fn run_sched(f: &Forest, ca: (usize, usize), cb: (usize, usize), block_of: &BTre
     rep.evaluations += 1;
     rep.traces_validated += 1;
     let short: Vec<Ev> = hist.iter().rev().take(12).rev().cloned().collect();
-    check_quiescent(f, &net, ca, cb, &short, rep, &case, if newest_first { "newest-fetch-first" } else { "fifo" });
+    check_quiescent(f, &net, ca, cb, &short, rep, &case, if mode == 2 { "newest-announcement-first" } else if mode == 3 { "announcements-and-fetches-alternate" } else if newest_first { "newest-fetch-first" } else { "fifo" });
 }
 
 fn explore(f: &Forest, ca: (usize, usize), cb: (usize, usize), block_of: &BTreeMap<Hash, Vec<u8>>, rep: &mut Report, cap: usize) {
@@ -875,7 +900,24 @@ pub fn main(tier: Tier, replay_file: Option<String>) -> i32 {
         let mut r = rep.child();
         run_fifo(&f, *ca, *cb, &block_of, &mut r);
         run_sched(&f, *ca, *cb, &block_of, &mut r, true);
+        run_sched_mode(&f, *ca, *cb, &block_of, &mut r, 2);
         r.outcome("fifo:world-with-a-syncing-node-that-completed-loading");
+        r
+    });
+    for r in res {
+        rep.merge(r);
+    }
+    // every long world (shorter, empty and forked A) with announcements arriving newest first
+    // (not for an empty A: it adopts the first block it is given, here the peer's tip, and by design
+    // never asks for what lies below it)
+    let nonempty: Vec<_> = fifo.iter().filter(|(ca, _)| ca.0 + ca.1 > 0).cloned().collect();
+    let res = par_map(&nonempty, workers(), |_, (ca, cb)| {
+        let mut r = rep.child();
+        run_sched_mode(&f, *ca, *cb, &block_of, &mut r, 2);
+        if tier.thorough {
+            run_sched_mode(&f, *ca, *cb, &block_of, &mut r, 3);
+        }
+        r.outcome("newest-announcement-first:world");
         r
     });
     A_LOADED.store(false, std::sync::atomic::Ordering::SeqCst);
